@@ -550,7 +550,11 @@ class Bits:
         with open(pathlib.Path(filename), 'rb') as source:
             if offset is None:
                 offset = 0
-            m = mmap.mmap(source.fileno(), 0, access=mmap.ACCESS_READ)
+            if source.seek(0, 2) == 0:
+                # An empty file cannot be memory mapped; it is a valid source of zero bits.
+                m = b''
+            else:
+                m = mmap.mmap(source.fileno(), 0, access=mmap.ACCESS_READ)
             if offset == 0:
                 self._filename = source.name
                 self._bitstore = BitStore.frombuffer(m, length=length)
